@@ -408,6 +408,11 @@ class List(list, base.Symbolic, pg_typing.CustomTyping):
     if isinstance(value, Insertion):
       should_insert = True
       value = value.value
+      # NOTE: a value that already lives in a tree is always copied when it is
+      # inserted, even when it is inserted at its own position (in which case
+      # `_relocate_if_symbolic` considers it as already in place).
+      if isinstance(value, base.Symbolic) and value.sym_parent is not None:
+        value = value.clone()
 
     old_value = pg_typing.MISSING_VALUE
     # Replace an existing value.
